@@ -66,6 +66,9 @@ CHECKS = {
  "C17": (True, "E1+E2", E1 + " (every capacity x length x write) + " + E2 + " (write histories)",
          "Every Lmer capacity 1..6, every length 0..=max_len, three backgrounds: every set_mut, every set_slice_mut (position x run length x 4 words), rc, new, from_slice, k-mer extraction: only the addressed bases change and the raw value equals from_slice(expected); stateright BFS 4 (5) writes deep at word-boundary positions for capacities 1..3 (4, 6).",
          "E2 part depth-bounded", "3/C17"),
+ "C19": (True, "E3+E1", E3 + "; plus " + E1 + " for the graph quantifier",
+         "E3: loom explores every interleaving (DPOR; quick: 2 threads preemption bound 4 and 3 threads bound 1; thorough: 2 threads UNBOUNDED i.e. complete, 3 threads bound 3, 4 threads bound 2) of the real BaseGraph::finish on node lists whose end k-mers collide in the perfect-hash construction (so the shared collide bit and a second level are exercised); in every execution all 512 link lookups, all edge lists and the node order must equal the serial build and be identical across executions. E1: finish() == finish_serial() on every graph of the read-set families for all 4^K lookups, twice; a labelled native sampling run on 20k-150k-node graphs with 1..16 real rayon threads.",
+         "the dependency boomphf is compiled from a mechanically derived copy (3 listed edits, conformance re-checked on every run) with loom atomics; rayon's work stealing is over-approximated by arbitrary interleaving of per-chunk bodies on a fixed loom thread pool; >= 10^5 nodes and 16-thread pools are covered by native sampling only (stated in the evidence)", "3/C19"),
 }
 
 NOT_BUILT_REASON = "check not built yet in this round (planned in DESIGN.md section 3); not claimed until it exists"
